@@ -19,14 +19,27 @@ Open Scope list_scope.
 
 Inductive cfg := Bare | Std | Bin | Full.
 
+(* An interpreter as the capability semantics sees it: the value of its sandbox flag (environment.go
+   Zlisp.sandboxed), what its binding tables hold (global scope, env.builtins, env.macros with Go functions)
+   and its script-text macros.  The four fixed configurations are instances (ctx_of, a coercion); the
+   interpreter FAMILY of Model/Family.v (Duplicate, Clone, StandardSetup, ReplMain ...) produces others. *)
+Record ctx := { cflag : bool; cbind : list (string * bkind * string); cmac : list (string * list string) }.
+
 (* Full (NewZlisp + StandardSetup) is the unrestricted control configuration, not a sandbox. *)
-Definition sandboxed (c : cfg) : bool := match c with Full => false | _ => true end.
+Definition ctx_of (c : cfg) : ctx :=
+  match c with
+  | Bare => {| cflag := true; cbind := bindings_bare; cmac := script_macros_bare |}
+  | Std => {| cflag := true; cbind := bindings_std; cmac := script_macros_std |}
+  | Bin => {| cflag := true; cbind := bindings_bin; cmac := script_macros_bin |}
+  | Full => {| cflag := false; cbind := bindings_full; cmac := script_macros_full |}
+  end.
+Coercion ctx_of : cfg >-> ctx.
 
-Definition bindings (c : cfg) : list (string * bkind * string) :=
-  match c with Bare => bindings_bare | Std => bindings_std | Bin => bindings_bin | Full => bindings_full end.
+Definition sandboxed (c : ctx) : bool := cflag c.
 
-Definition script_macros (c : cfg) : list (string * list string) :=
-  match c with Bare => script_macros_bare | Std => script_macros_std | Bin => script_macros_bin | Full => script_macros_full end.
+Definition bindings (c : ctx) : list (string * bkind * string) := cbind c.
+
+Definition script_macros (c : ctx) : list (string * list string) := cmac c.
 
 Definition cfg_name (c : cfg) : string :=
   match c with Bare => "bare" | Std => "std" | Bin => "bin" | Full => "full" end.
@@ -50,12 +63,12 @@ Fixpoint assoc {A : Type} (k : string) (l : list (string * A)) : option A :=
 (* A Go function identifier without an entry in the effect table is NOT assumed pure.
    Sandboxed configurations use the table in which functions that start with a guard on the
    interpreter's sandbox flag are cut (identical to fn_effects while the source has no such flag). *)
-Definition effect_of (c : cfg) (f : string) : list effect :=
+Definition effect_of (c : ctx) (f : string) : list effect :=
   match assoc f (if sandboxed c then fn_effects_sandboxed else fn_effects) with Some e => e | None => [Eunknown] end.
 
-Definition effects_of (c : cfg) (fs : list string) : list effect := flat_map (effect_of c) fs.
+Definition effects_of (c : ctx) (fs : list string) : list effect := flat_map (effect_of c) fs.
 
-Definition pure (c : cfg) (f : string) : bool := match effect_of c f with [] => true | _ => false end.
+Definition pure (c : ctx) (f : string) : bool := match effect_of c f with [] => true | _ => false end.
 
 (* Go functions behind the non-value bindings of a configuration *)
 Definition prim_fns (bs : list (string * bkind * string)) : list string :=
@@ -72,7 +85,7 @@ Definition implicit_fns : list string := prim_fns implicit_prims.
 (* Everything the text of a script can name in configuration c resolves through this function:
    bound names (global scope and builtins table), special forms, Go macros (bound with KGoMacro),
    and script-text macros, whose expansion can only mention the names listed by the translator. *)
-Fixpoint resolve (c : cfg) (fuel : nat) (n : string) : list string :=
+Fixpoint resolve (c : ctx) (fuel : nat) (n : string) : list string :=
   fns_named n (bindings c) ++ specials_named n ++
   match fuel with
   | O => []
@@ -83,10 +96,10 @@ Fixpoint resolve (c : cfg) (fuel : nat) (n : string) : list string :=
       end
   end.
 
-Definition macro_fuel (c : cfg) : nat := S (length (script_macros c)).
+Definition macro_fuel (c : ctx) : nat := S (length (script_macros c)).
 
 (* The closure: every primitive a script could possibly reach in configuration c. *)
-Definition closure (c : cfg) : list string :=
+Definition closure (c : ctx) : list string :=
   prim_fns (bindings c) ++ map snd special_forms ++ implicit_fns ++ vm_core.
 
 (* ---- abstract programs ---- *)
@@ -122,7 +135,7 @@ Definition run_list (f : aenv -> prog -> res) : aenv -> list prog -> res :=
         end
     end.
 
-Fixpoint run (c : cfg) (env : aenv) (p : prog) : res :=
+Fixpoint run (c : ctx) (env : aenv) (p : prog) : res :=
   match p with
   | PConst => (env, [], [])
   | PRef n => (env, lookup_alias n env ++ resolve c (macro_fuel c) n, [])
@@ -154,26 +167,26 @@ Fixpoint run (c : cfg) (env : aenv) (p : prog) : res :=
       end
   end.
 
-Definition prims_reached (c : cfg) (p : prog) : list string :=
+Definition prims_reached (c : ctx) (p : prog) : list string :=
   match run c [] p with (_, _, r) => r ++ vm_core end.
 
 Definition run_abs := prims_reached.
 
 (* ---- purity of the tables ---- *)
 
-Definition binding_pure (c : cfg) (b : string * bkind * string) : bool :=
+Definition binding_pure (c : ctx) (b : string * bkind * string) : bool :=
   match b with (_, k, f) => orb (is_value k) (pure c f) end.
 
-Definition special_pure (c : cfg) (s : string * string) : bool := pure c (snd s).
+Definition special_pure (c : ctx) (s : string * string) : bool := pure c (snd s).
 
 (* every primitive of the closure of configuration c is effect-free *)
-Definition tables_ok (c : cfg) : bool :=
+Definition tables_ok (c : ctx) : bool :=
   andb (forallb (binding_pure c) (bindings c))
        (andb (forallb (special_pure c) special_forms)
              (andb (forallb (binding_pure c) implicit_prims) (forallb (pure c) vm_core))).
 
 (* the impure entries, as (table, script name, Go function) -- what the check reports *)
-Definition impure_entries (c : cfg) : list (string * string * string) :=
+Definition impure_entries (c : ctx) : list (string * string * string) :=
   flat_map (fun b => match b with (n, k, f) => if orb (is_value k) (pure c f) then [] else [("binding", n, f)] end) (bindings c) ++
   flat_map (fun s => if pure c (snd s) then [] else [("special", fst s, snd s)]) special_forms ++
   flat_map (fun b => match b with (n, k, f) => if pure c f then [] else [("implicit", n, f)] end) implicit_prims ++
@@ -191,8 +204,8 @@ Definition all_effects : list effect :=
   [Echdir; Eenvread; Eenvwrite; Eexit; Efileread; Efilewrite; Enet; Eprocess; Estdinread; Eterminal; Eunknown].
 
 (* the effect classes of a run, without duplicates, in a fixed order *)
-Definition effect_set (c : cfg) (fs : list string) : list effect :=
+Definition effect_set (c : ctx) (fs : list string) : list effect :=
   let es := effects_of c fs in filter (fun e => existsb (effect_eqb e) es) all_effects.
 
-Definition predicted_effects (c : cfg) (p : prog) : list string :=
+Definition predicted_effects (c : ctx) (p : prog) : list string :=
   map effect_name (effect_set c (run_abs c p)).
